@@ -113,9 +113,9 @@ Section Abs.
   Qed.
 
   (* ---- byte-level soundness of the abstract operations --------------------------------------------- *)
-  Lemma axor_ok i x y a b : lane_ok i x a -> lane_ok i y b -> lane_ok i (axor x y) (N.lxor a b).
+  Lemma axor0_ok i x y a b : lane_ok i x a -> lane_ok i y b -> lane_ok i (axor0 x y) (N.lxor a b).
   Proof.
-    destruct x, y; cbn [axor]; try (intros; exact I).
+    destruct x, y; cbn [axor0]; try (intros; exact I).
     - cbn [lane_ok]. intros -> ->. symmetry. apply eval_app.
     - cbn [lane_ok]. intros -> ->. destruct (src_eqb s s0) eqn:E1; [|exact I]. destruct (c =? 142) eqn:E2; [|exact I].
       cbn [andb lane_ok]. apply src_eqb_eq in E1. apply N.eqb_eq in E2. subst.
@@ -124,9 +124,9 @@ Section Abs.
       cbn [andb lane_ok]. apply src_eqb_eq in E1. apply N.eqb_eq in E2. subst.
       cbn [eval_nf fold_right fst snd cmul]. rewrite N.lxor_0_r. apply x2_idiom. apply sval_lt.
   Qed.
-  Lemma aand_ok i x y a b : lane_ok i x a -> lane_ok i y b -> lane_ok i (aand x y) (N.land a b).
+  Lemma aand0_ok i x y a b : lane_ok i x a -> lane_ok i y b -> lane_ok i (aand0 x y) (N.land a b).
   Proof.
-    destruct y; cbn [aand]; try (intros; exact I). intros Ha Hb. cbn [lane_ok] in Hb. subst b.
+    destruct y; cbn [aand0]; try (intros; exact I). intros Ha Hb. cbn [lane_ok] in Hb. subst b.
     destruct x; try exact I.
     - destruct (single n) as [s|] eqn:E; [|exact I]. destruct (c =? 15) eqn:E2; [|exact I].
       apply N.eqb_eq in E2. subst c. cbn [lane_ok] in *. subst a. rewrite (eval_single n s i E). reflexivity.
@@ -141,6 +141,16 @@ Section Abs.
         apply N.eqb_eq in K1, C127. subst. cbn [andb lane_ok]. apply srl1_lo; [apply sval_lt|exact Hy].
     - cbn [lane_ok] in *. subst a. destruct (128 <=? sval s i); [reflexivity|apply N.land_0_l].
     - cbn [lane_ok] in *. subst a. destruct (N.odd (sval s i)); [reflexivity|apply N.land_0_l].
+  Qed.
+  Lemma axor_ok i x y a b : lane_ok i x a -> lane_ok i y b -> lane_ok i (axor x y) (N.lxor a b).
+  Proof.
+    intros Ha Hb. unfold axor. assert (H1 := axor0_ok i x y a b Ha Hb). assert (H2 := axor0_ok i y x b a Hb Ha).
+    rewrite N.lxor_comm in H2. destruct (axor0 x y); assumption.
+  Qed.
+  Lemma aand_ok i x y a b : lane_ok i x a -> lane_ok i y b -> lane_ok i (aand x y) (N.land a b).
+  Proof.
+    intros Ha Hb. unfold aand. assert (H1 := aand0_ok i x y a b Ha Hb). assert (H2 := aand0_ok i y x b a Hb Ha).
+    rewrite N.land_comm in H2. destruct (aand0 x y); assumption.
   Qed.
   Lemma aadd_ok i x y a b : lane_ok i x a -> lane_ok i y b -> lane_ok i (aadd x y) (badd a b).
   Proof.
